@@ -59,8 +59,16 @@ pub fn random_apodization(rng: &mut Rng, length_m: f64) -> Apodization {
 
 /// A random setup.  Returns Err(reason) when the library cannot build it.
 pub fn random_setup(rng: &mut Rng, g: &Gen) -> Result<(SPDC, Value), String> {
-  let poled = rng.below(10) < 6;
-  let (crystal, pm_type, theta0) = if poled {
+  random_setup_with(rng, g, None)
+}
+
+/// `force`: crystal and phase-matching type fixed; Some(theta) = periodically poled at that cut angle, None = angle tuned
+pub fn random_setup_with(rng: &mut Rng, g: &Gen, force: Option<(CrystalType, PMType, Option<f64>)>) -> Result<(SPDC, Value), String> {
+  let mut poled = rng.below(10) < 6;
+  let (crystal, pm_type, theta0) = if let Some((c, t, th)) = force {
+    poled = th.is_some();
+    (c, t, th.unwrap_or(45.))
+  } else if poled {
     rng.pick(&POLED).clone()
   } else {
     let (c, t) = rng.pick(&ANGLE_TUNED).clone();
@@ -128,6 +136,29 @@ pub fn random_setup(rng: &mut Rng, g: &Gen) -> Result<(SPDC, Value), String> {
     spdc.idler_waist_position = -rng.range(0., 1.) * length * M;
   }
   Ok((spdc, desc))
+}
+
+/// The signal/idler-exchanged experiment built through the public constructor, WITHOUT SPDC::with_swapped_signal_idler / PMType::inverse
+pub fn exchanged_by_hand(spdc: &SPDC) -> SPDC {
+  let mut cs = spdc.crystal_setup.clone();
+  cs.pm_type = match cs.pm_type {
+    PMType::Type2_e_eo => PMType::Type2_e_oe,
+    PMType::Type2_e_oe => PMType::Type2_e_eo,
+    t => t,
+  };
+  SPDC::new(
+    cs,
+    SignalBeam::new(spdc.idler.clone().as_beam()),
+    IdlerBeam::new(spdc.signal.clone().as_beam()),
+    spdc.pump.clone(),
+    spdc.pump_bandwidth,
+    spdc.pump_average_power,
+    spdc.pump_spectrum_threshold,
+    spdc.pp.clone(),
+    spdc.idler_waist_position,
+    spdc.signal_waist_position,
+    spdc.deff,
+  )
 }
 
 fn g_collinear(theta_s_ext: f64) -> bool {
@@ -229,7 +260,14 @@ pub fn run(args: &[String]) {
       equal_waists: rng.below(6) == 0,
       elliptic: rng.below(4) == 0,
     };
-    let (spdc, desc) = match random_setup(&mut rng, &g) {
+    // the first setups of every run have the phase-matching type whose exchange is NOT itself (e -> oe, poled and angle tuned; e -> eo)
+    let force = match tries {
+      1 => Some((CrystalType::KTP, PMType::Type2_e_oe, Some(90.))),
+      2 => Some((CrystalType::BBO_1, PMType::Type2_e_oe, None)),
+      3 => Some((CrystalType::KTP, PMType::Type2_e_eo, Some(90.))),
+      _ => None,
+    };
+    let (spdc, desc) = match random_setup_with(&mut rng, &g, force) {
       Ok(x) => x,
       Err(e) => {
         emit(json!({"kind": "skip", "why": e}));
@@ -263,6 +301,42 @@ pub fn run(args: &[String]) {
           "zs": fxs(&zs), "p": pa, "v": va, "p_sw": pb, "v_sw": vb})),
         (a, b) => emit(json!({"kind": "pt_panic", "setup": desc, "id": made, "k": k,
           "orig": a.err(), "swapped": b.err()})),
+      }
+    }
+    {
+      // normalized spectra (normalized to the value at the optimum centre, which JointSpectrum::new re-derives from crystal_setup.pm_type):
+      // the setup, the library's exchange and an exchange built by hand, on a small grid and its transpose
+      let span = 0.7 * sigma;
+      let range = FrequencySpace::new((ws0 - span, ws0 + 0.8 * span, 3), (wi0 - 0.9 * span, wi0 + span, 2));
+      let range_t = FrequencySpace::new((wi0 - 0.9 * span, wi0 + span, 2), (ws0 - span, ws0 + 0.8 * span, 3));
+      let res = guarded(|| {
+        let hand = exchanged_by_hand(&spdc);
+        let js_hand = JointSpectrum::new(hand.clone(), integ);
+        let pts: Vec<(Frequency, Frequency)> = range.as_steps().into_iter().collect();
+        let pts_t: Vec<(Frequency, Frequency)> = range_t.as_steps().into_iter().collect();
+        let rw = |f: Frequency| *(f / (RAD / S));
+        let grid: Vec<Value> = pts.iter().map(|(a, b)| json!([fx(rw(*a)), fx(rw(*b))])).collect();
+        let grid_t: Vec<Value> = pts_t.iter().map(|(a, b)| json!([fx(rw(*a)), fx(rw(*b))])).collect();
+        let ju = |v: Vec<JSIUnits<f64>>| -> Vec<f64> { v.iter().map(|x| *(*x / JSIUnits::new(1.))).collect() };
+        json!({"grid": grid, "grid_t": grid_t,
+          "pm_type": spdc.crystal_setup.pm_type.to_str(), "pm_type_sw": swapped.crystal_setup.pm_type.to_str(),
+          "pm_type_hand": hand.crystal_setup.pm_type.to_str(),
+          "jsi_n": fxs(&js.0.jsi_normalized_range(range)),
+          "jsi_n_sw_t": fxs(&js.1.jsi_normalized_range(range_t)),
+          "jsi_n_hand_t": fxs(&js_hand.jsi_normalized_range(range_t)),
+          "idler_n": fxs(&js.0.jsi_singles_idler_normalized_range(range)),
+          "signal_n_sw_t": fxs(&js.1.jsi_singles_normalized_range(range_t)),
+          "signal_n_hand_t": fxs(&js_hand.jsi_singles_normalized_range(range_t)),
+          "signal_n": fxs(&js.0.jsi_singles_normalized_range(range)),
+          "idler_n_hand_t": fxs(&js_hand.jsi_singles_idler_normalized_range(range_t)),
+          "jsi": fxs(&ju(js.0.jsi_range(range))),
+          "jsi_hand_t": fxs(&ju(js_hand.jsi_range(range_t))),
+          "idler": fxs(&ju(js.0.jsi_singles_idler_range(range))),
+          "signal_hand_t": fxs(&ju(js_hand.jsi_singles_range(range_t)))})
+      });
+      match res {
+        Ok(v) => emit(json!({"kind": "norm", "setup": desc, "id": made, "r": v})),
+        Err(e) => emit(json!({"kind": "norm_panic", "setup": desc, "id": made, "why": e})),
       }
     }
     if made <= nrates {
